@@ -122,6 +122,29 @@ def run (args : List Str) (impl : String) : String × String × String :=
       let kind := if m = "err" then "err" else if sstarts m "panic" then "panic" else Str.show (act.takeWhile (· ≠ 58))
       (m, spec, "with-" ++ kind ++ (if rid.contains 63 then "-query" else ""))
       | _ => ("bad-op", "-", "bad")
+    else if c = str "withls" then
+      -- the listeners of the resource's pattern hear of an event made through With exactly as they do of
+      -- one made from a request handler: after it was published, once, under its name; events that are not
+      -- resource events (reaccess, reset, query) and failed calls notify nobody
+      match rest with
+      | [rid, act] =>
+        let (rname, _) := parseRID rid
+        let listened := [b!"svc.model.$id", b!"svc.static"].any (fun p => Pattern.matches p rname)
+        let o := match parseAct act with
+          | none => "bad-op"
+          | some a => match withOp patterns rid a with
+            | .err => "err"
+            | .panic => "panic ls=-"
+            | .pubs _ =>
+              let name : Option Str := match a with
+                | .custom n => some n | .change => some b!"change" | .create => some b!"create" | .delete => some b!"delete"
+                | _ => none
+              (match name with
+               | some n => if listened then "ls=" ++ Str.show n else "ls=-"
+               | none => "ls=-")
+            | .info _ _ => "ls=-"
+        (o, if Pattern.isValidRID rid then o else "-", "withls-" ++ (if sstarts o "ls=" ∧ o ≠ "ls=-" then "heard" else "silent"))
+      | _ => ("bad-op", "-", "bad")
     else if c = str "tokenreset" then
       match rest with
       | subj :: k :: tids =>
